@@ -300,7 +300,7 @@ func New(cfg Cfg, salt string) (w *World, err error) {
 	if cfg.RegWhitelist != nil {
 		br.Whitelist["register"] = append([]string(nil), cfg.RegWhitelist...)
 	}
-	ab.Config.Core.BodyReader = br
+	ab.Config.Core.BodyReader = bodyReader{br}
 	ab.Config.Core.Mailer = mailer{w}
 	ab.Config.Core.Hasher = hasher{w: w, inner: authboss.NewBCryptHasher(4)}
 
@@ -504,6 +504,18 @@ func (w *World) noteCookieWrite(evs []Event) {
 		w.cur.CookWrites = append(w.cur.CookWrites, evs)
 		w.cur.CookWriteAt = append(w.cur.CookWriteAt, w.seq)
 	}
+}
+
+// bodyReader is the shipped defaults.HTTPBodyReader; the only addition is that the otp module's
+// login page ("otplogin"), which the shipped reader does not know, is read like the "login" page
+// (same fields) — without this the OTP login route cannot be reached with the defaults at all.
+type bodyReader struct{ inner *defaults.HTTPBodyReader }
+
+func (b bodyReader) Read(page string, r *http.Request) (authboss.Validator, error) {
+	if page == "otplogin" {
+		page = "login"
+	}
+	return b.inner.Read(page, r)
 }
 
 type logWriter struct{ w *World }
